@@ -1,2 +1,246 @@
+/-
+  Property C04: integer constant expressions.
+
+  The evaluator model (`Expr/Impl.lean`, an operator-precedence stack machine mirroring
+  core/eval_expression.cpp) is proved correct against the tree specification
+  (`Expr/Spec.lean`), safe on every input, and the literal conversion model
+  (`Expr/Literal.lean`) is proved to give positional values.
+  Only statements and non-vacuity examples live here; proofs are in `Expr/Proofs*`.
+-/
 import NakenVerif.Expr.Impl
 import NakenVerif.Expr.Literal
+import NakenVerif.Expr.Proofs
+
+namespace NakenVerif.Expr
+
+open NakenVerif.Generated (BinOp)
+
+/-! ## 1–2. tables -/
+
+/-- the regenerated precedence table is the conventional one -/
+theorem prec_conventional (o : BinOp) : prec o = specLevel o := prec_eq_specLevel o
+
+example : prec .mul < prec .add ∧ prec .add < prec .shl ∧ prec .shl < prec .and ∧
+    prec .and < prec .xor ∧ prec .xor < prec .or := by decide
+
+/-- the operators are 64-bit two's-complement, division/modulo by zero have no value -/
+theorem applyOp_spec (o : BinOp) (a b : BitVec 64) : applyOp o a b = specOp o a b :=
+  applyOp_eq_specOp o a b
+
+example : applyOp .div (-7) 2 = some (-3) ∧ applyOp .mod (-7) 2 = some (-1) ∧
+    applyOp .div 1 0 = none ∧ applyOp .shr (-8) 1 = some (-4) := by decide
+
+/-! ## 3. main theorem -/
+
+/-- Evaluating the conventional notation of ANY tree yields the tree's value and leaves
+    exactly `rest` unread; a tree without value is rejected with `.err`. -/
+theorem eval_render (e : E) (rest : List Tok) (h : Terminator rest) :
+    eval (e.render ++ rest) =
+      match e.eval with
+      | some v => .ok (v, rest)
+      | none => .err :=
+  eval_render_main e rest h
+
+-- 1 | 2 + 3 * 4 = 15
+example : eval ((E.bin .or (.num 1) (.bin .add (.num 2) (.bin .mul (.num 3) (.num 4)))).render
+    ++ [.eol]) = .ok (15, [.eol]) := by eval_model
+
+-- (1 + 2) * -(3 - 5) , then `,` : left operand needs parentheses, unary minus on a parenthesis
+example : eval ((E.bin .mul (.bin .add (.num 1) (.num 2))
+    (.neg (.bin .sub (.num 3) (.num 5)))).render ++ [.sep 0, .num 9]) = .ok (6, [.sep 0, .num 9]) := by
+  eval_model
+
+-- 10 - (4 - 3) = 9 (right operand of equal level keeps its parentheses), stops before `)`
+example : eval ((E.bin .sub (.num 10) (.bin .sub (.num 4) (.num 3))).render ++ [.rparen, .eol])
+    = .ok (9, [.rparen, .eol]) := by eval_model
+
+-- 8 / (2 - 2) has no value and is rejected
+example : (E.bin .div (.num 8) (.bin .sub (.num 2) (.num 2))).eval = none ∧
+    eval ((E.bin .div (.num 8) (.bin .sub (.num 2) (.num 2))).render ++ [.eol]) = .err := by
+  constructor
+  · decide
+  · eval_model
+
+/-! ## 4. no fault on ANY token list -/
+
+/-- the value stack never exceeds `varStackLen`, the operator stack never exceeds
+    `operStackLen`, and nothing is popped from an empty stack -/
+theorem run_no_fault (fuel : Nat) (isParen : Bool) (ts : List Tok) :
+    run fuel isParen ts ≠ .fault :=
+  run_no_fault_main fuel isParen ts
+
+theorem unary_no_fault (fuel : Nat) (ts : List Tok) : unary fuel ts ≠ .fault :=
+  unary_no_fault_main fuel ts
+
+theorem eval_no_fault (ts : List Tok) : eval ts ≠ .fault :=
+  run_no_fault_main _ _ ts
+
+-- the deepest legal operator nesting fills both stacks exactly (7 values, 6 operators)
+example : eval [.num 1, .op .or, .num 2, .op .xor, .num 3, .op .and, .num 4, .op .shl, .num 1,
+    .op .add, .num 2, .op .mul, .num 3, .eol] = .ok (3, [.eol]) := by eval_model
+
+-- `.fault` is a real outcome of the helper functions, so the theorem says something
+example : execTop { vals := [1], ops := [.add] } = .fault := by decide
+example : pushVal { vals := [1, 2, 3, 4, 5, 6, 7], ops := [] } 8 = .fault := by decide
+
+/-! ## 5. fuel -/
+
+theorem eval_no_fuel (ts : List Tok) : eval ts ≠ .fuel := eval_no_fuel_main ts
+
+example : run 3 false [.num 1, .op .add, .num 2, .eol] = .fuel := by eval_model
+
+/-! ## 6. malformed input is rejected -/
+
+theorem trailing_operator_rejected (e : E) (o : BinOp) (rest : List Tok) (h : Terminator rest) :
+    eval (e.render ++ .op o :: rest) = .err :=
+  trailing_operator_main e o rest h
+
+example : eval ((E.bin .add (.num 1) (.num 2)).render ++ .op .sub :: [.eol]) = .err := by
+  eval_model
+
+theorem unclosed_paren_rejected (e : E) :
+    eval (.lparen :: e.render ++ [.eol]) = .err ∧ eval (.lparen :: e.render ++ []) = .err := by
+  constructor
+  · exact unclosed_paren_main e [.eol] (Or.inr ⟨[], rfl⟩)
+  · exact unclosed_paren_main e [] (Or.inl rfl)
+
+example : eval (.lparen :: (E.bin .add (.num 1) (.num 2)).render ++ [.eol]) = .err := by
+  eval_model
+
+theorem empty_rejected :
+    eval [] = .err ∧ eval [.eol] = .err ∧ eval [.lparen, .rparen, .eol] = .err := by
+  refine ⟨?_, ?_, ?_⟩ <;> eval_model
+
+theorem adjacent_operands_rejected (e : E) (v : BitVec 64) (rest : List Tok) :
+    eval (e.render ++ .num v :: rest) = .err :=
+  adjacent_operands_main e v rest
+
+example : eval ((E.bin .mul (.num 1) (.num 2)).render ++ .num 3 :: [.eol]) = .err := by
+  eval_model
+
+theorem lone_unary_rejected : eval [.tilde, .eol] = .err ∧ eval [.op .sub, .eol] = .err := by
+  constructor <;> eval_model
+
+/-! ## 7. the 32-bit entry point truncates -/
+
+theorem eval32_truncates (ts : List Tok) :
+    eval32 ts =
+      match eval ts with
+      | .ok (v, r) => .ok (v.truncate 32, r)
+      | .err => .err
+      | .fault => .fault
+      | .fuel => .fuel := rfl
+
+example : eval32 [.num 0x1_0000_0005, .eol] = .ok (5, [.eol]) := by eval_model
+
+end NakenVerif.Expr
+
+/-! ## 8. literals -/
+
+namespace NakenVerif.Expr.Literal
+
+section Literals
+
+-- `positional base digits` (most significant first), the digit predicates `isDecDigit`,
+-- `isOctDigit`, `isBinDigit`, `isHexDigit`, the digit worth `digitVal` and
+-- `digits cs := (cs.filter (· ≠ '_')).map digitVal` are defined in `Expr/LiteralSpec.lean`.
+
+example : positional 10 [1, 2, 3] = 123 ∧ positional 16 [1, 15] = 31 := by decide
+example : digitVal '7' = 7 ∧ digitVal 'a' = 10 ∧ digitVal 'F' = 15 := by decide
+
+/-- decimal literal, no separators, value below 2^64 -/
+theorem literal_decimal (np : Bool) (ds : List Char) (hne : ds ≠ [])
+    (hd : ∀ c ∈ ds, isDecDigit c = true) (h0 : ds.head? ≠ some '0' ∨ ds = ['0'])
+    (hv : positional 10 (ds.map digitVal) < 2 ^ 64) :
+    convert np ds = .number (BitVec.ofNat 64 (positional 10 (ds.map digitVal))) :=
+  convert_decimal np ds hne hd h0 hv
+
+example : convert false ['6', '5', '5', '3', '6'] = .number 65536 := by decide
+
+/-- decimal literal with `_` separators after the first digit -/
+theorem literal_decimal_sep (np : Bool) (d0 : Char) (ds : List Char)
+    (hd0 : isDecDigit d0 = true) (hnz : d0 ≠ '0')
+    (hd : ∀ c ∈ ds, isDecDigit c = true ∨ c = '_')
+    (hv : positional 10 (digits (d0 :: ds)) < 2 ^ 64) :
+    convert np (d0 :: ds) = .number (BitVec.ofNat 64 (positional 10 (digits (d0 :: ds)))) :=
+  convert_decimal_sep np d0 ds hd0 hnz hd hv
+
+example : convert true ['1', '_', '0', '0', '0'] = .number 1000 := by decide
+
+/-- `0x…` hexadecimal literal (value modulo 2^64) -/
+theorem literal_hex_prefix (np : Bool) (hs : List Char) (hh : ∀ c ∈ hs, isHexDigit c = true) :
+    convert np ('0' :: 'x' :: hs) =
+      .number (BitVec.ofNat 64 (positional 16 (hs.map digitVal))) :=
+  convert_hex_prefix np hs hh
+
+theorem literal_hex_prefix_sep (np : Bool) (hs : List Char)
+    (hh : ∀ c ∈ hs, isHexDigit c = true ∨ c = '_') :
+    convert np ('0' :: 'x' :: hs) = .number (BitVec.ofNat 64 (positional 16 (digits hs))) :=
+  convert_hex_prefix_sep np hs hh
+
+example : convert false ['0', 'x', 'f', 'F', '_', '1', '0'] = .number 0xff10 := by decide
+
+/-- `0b…` binary literal (value modulo 2^64) -/
+theorem literal_bin_prefix (np : Bool) (bs : List Char) (hb : ∀ c ∈ bs, isBinDigit c = true) :
+    convert np ('0' :: 'b' :: bs) =
+      .number (BitVec.ofNat 64 (positional 2 (bs.map digitVal))) :=
+  convert_bin_prefix np bs hb
+
+theorem literal_bin_prefix_sep (np : Bool) (bs : List Char)
+    (hb : ∀ c ∈ bs, isBinDigit c = true ∨ c = '_') :
+    convert np ('0' :: 'b' :: bs) = .number (BitVec.ofNat 64 (positional 2 (digits bs))) :=
+  convert_bin_prefix_sep np bs hb
+
+example : convert true ['0', 'b', '1', '0', '1', '_', '1'] = .number 11 := by decide
+
+/-- leading `0` followed by at least one octal digit: octal -/
+theorem literal_octal_leading_zero (np : Bool) (os : List Char) (hne : os ≠ [])
+    (ho : ∀ c ∈ os, isOctDigit c = true) :
+    convert np ('0' :: os) = .number (BitVec.ofNat 64 (positional 8 (os.map digitVal))) :=
+  convert_octal np os hne ho
+
+theorem literal_octal_leading_zero_sep (np : Bool) (os : List Char)
+    (ho : ∀ c ∈ os, isOctDigit c = true ∨ c = '_') (hne : digits os ≠ []) :
+    convert np ('0' :: os) = .number (BitVec.ofNat 64 (positional 8 (digits os))) :=
+  convert_octal_sep np os ho hne
+
+example : convert false ['0', '1', '7', '_', '7'] = .number 127 := by decide
+
+/-- `…h` postfix (CPUs that accept number postfixes): hexadecimal.  The literal must start
+    with a decimal digit and must not start with `0b` (that is read as a binary prefix). -/
+theorem literal_hex_postfix (c0 : Char) (body : List Char) (pc : Char)
+    (hpc : pc = 'h' ∨ pc = 'H') (hc0 : isDecDigit c0 = true)
+    (hh : ∀ c ∈ body, isHexDigit c = true) (hnb : c0 = '0' → body.head? ≠ some 'b') :
+    convert false (c0 :: body ++ [pc]) =
+      .number (BitVec.ofNat 64 (positional 16 ((c0 :: body).map digitVal))) := by
+  apply convert_hex_postfix c0 body pc hpc hc0 hh
+  intro r
+  by_cases h : c0 = '0'
+  · left; intro hb; exact hnb h (by rw [hb]; rfl)
+  · exact Or.inr h
+
+example : convert false ['0', 'f', 'F', 'h'] = .number 255 := by decide
+-- the excluded shape really is different: `0b1h` is not a number at all
+example : convert false ['0', 'b', '1', 'h'] = .word := by decide
+
+/-- `…q` postfix: octal -/
+theorem literal_oct_postfix (c0 : Char) (body : List Char) (pc : Char)
+    (hpc : pc = 'q' ∨ pc = 'Q') (ho : ∀ c ∈ c0 :: body, isOctDigit c = true) :
+    convert false (c0 :: body ++ [pc]) =
+      .number (BitVec.ofNat 64 (positional 8 ((c0 :: body).map digitVal))) :=
+  convert_oct_postfix c0 body pc hpc ho
+
+example : convert false ['1', '7', '7', 'q'] = .number 127 := by decide
+
+/-- `…b` postfix: binary (every CPU) -/
+theorem literal_bin_postfix (np : Bool) (c0 : Char) (body : List Char) (pc : Char)
+    (hpc : pc = 'b' ∨ pc = 'B') (hb : ∀ c ∈ c0 :: body, isBinDigit c = true) :
+    convert np (c0 :: body ++ [pc]) =
+      .number (BitVec.ofNat 64 (positional 2 ((c0 :: body).map digitVal))) :=
+  convert_bin_postfix np c0 body pc hpc hb
+
+example : convert true ['1', '0', '1', '1', 'b'] = .number 11 := by decide
+
+end Literals
+
+end NakenVerif.Expr.Literal
